@@ -31,8 +31,11 @@ def _clauses(items, default_props=()):
 
 
 class LoopSpec:
-    def __init__(self, invariant=(), modifies=(), decreases=None, ghost_init=None, unroll=None, axioms=()):
+    def __init__(self, invariant=(), modifies=(), decreases=None, ghost_init=None, unroll=None, axioms=(), visits_all=None):
         self.axioms = _clauses(axioms)
+        # visits_all="<why>": the loop must not be left by `break` (statement-derived, e.g. "every candidate is attempted"):
+        # a reachable `break` is an obligation that fails
+        self.visits_all = visits_all
         self.unroll = unroll      # complete unrolling up to N iterations, with an unwinding assertion (no invariant needed)
         self.invariant = _clauses(invariant)
         self.modifies = [ast.parse(m.strip(), mode="eval").body if isinstance(m, str) else m for m in modifies]
